@@ -620,5 +620,171 @@ theorem step_refines (cls : Bool) (s : AStore α) (op : AOp α) (hinv : Inv cls 
     exact ⟨⟨s.vars.del id, h'⟩, by simp [step, need, hfv, hrel, Spec.step],
       inv_del hinv id v hfv h' hi' hc', by simp [abs_del, Spec.step]⟩
 
+/-! ### histories -/
+
+theorem run_refines (cls : Bool) (ops : List (AOp α)) :
+    ∀ s : AStore α, Inv cls s → Spec.validFrom cls s.abs ops →
+      ∃ s', run cls s ops = .ok (s', (Spec.run cls s.abs ops).2) ∧ Inv cls s' ∧
+        s'.abs = (Spec.run cls s.abs ops).1 := by
+  induction ops with
+  | nil => intro s hinv _; exact ⟨s, rfl, hinv, rfl⟩
+  | cons op ops ih =>
+    intro s hinv hv
+    obtain ⟨hv1, hv2⟩ := hv
+    obtain ⟨s1, h1, hinv1, habs1⟩ := step_refines cls s op hinv hv1
+    rw [← habs1] at hv2
+    obtain ⟨s2, h2, hinv2, habs2⟩ := ih s1 hinv1 hv2
+    refine ⟨s2, ?_, hinv2, ?_⟩
+    · simp [run, h1, h2, Spec.run, habs1]
+    · simp [Spec.run, habs2, habs1]
+
+theorem liveVals_abs (s : AStore α) : s.liveVals = Spec.allItems s.abs := by
+  simp only [liveVals, Spec.allItems, abs, Slots.gather_map]
+  congr 1
+  funext v
+  simp [Mem.liveVals, Spec.plain, Arr.contents, List.filterMap_map, Function.comp_def]
+
+theorem count_range (n b : Nat) : (List.range n).count b = if b < n then 1 else 0 := by
+  induction n with
+  | zero => simp
+  | succ n ih =>
+    rw [List.range_succ, List.count_append, ih]
+    by_cases h1 : b < n
+    · have : b ≠ n := by omega
+      have h2 : b < n + 1 := by omega
+      simp [h1, h2, List.count_cons]; omega
+    · by_cases h2 : b = n
+      · subst h2; simp
+      · have h3 : ¬ b < n + 1 := by omega
+        have : (n == b) = false := by simp; omega
+        simp [h1, h3, List.count_cons, this]
+
+/-- when no variable is left: nothing is alive, nothing is still allocated, and the log of `free`
+    calls is a permutation of all block ids ever handed out (each freed exactly once) -/
+theorem all_dropped {cls : Bool} {s : AStore α} (hinv : Inv cls s) (hnone : ∀ i, s.vars.find i = none) :
+    s.liveVals = [] ∧ s.heap.owned = [] ∧ s.heap.freed.Perm (List.range s.heap.next) := by
+  have hb : s.blocks = [] := Slots.gather_nil_of_all_none _ _ hnone
+  have ho : s.heap.owned = [] := by
+    apply List.eq_nil_iff_forall_not_mem.mpr
+    intro b hb'
+    have := hinv.own b
+    rw [hb] at this
+    have hp := List.count_pos_iff.mpr hb'
+    simp at this; omega
+  refine ⟨Slots.gather_nil_of_all_none _ _ hnone, ho, ?_⟩
+  rw [List.perm_iff_count]
+  intro b
+  have := hinv.heap b
+  rw [ho] at this
+  rw [count_range]; simpa using this
+
+/-- two different variables never point to the same block -/
+theorem no_alias {cls : Bool} {s : AStore α} (hinv : Inv cls s) {i j : Nat} (hij : i ≠ j)
+    {v w : AVar α} (hv : s.vars.find i = some v) (hw : s.vars.find j = some w) {b : Nat}
+    (hb : v.blk = some b) : w.blk ≠ some b := by
+  intro hwb
+  have h1 := Slots.count_gather_set (fun v : AVar α => v.blk.toList) s.vars i (some v) none (Slots.find_get hv) b
+  have hw' : (s.vars.set i none)[j]? = some (some w) := by
+    rw [List.getElem?_set_ne hij]; exact Slots.find_get hw
+  have h2 := Slots.count_gather_set (fun v : AVar α => v.blk.toList) (s.vars.set i none) j (some w) none hw' b
+  have h3 := hinv.own b
+  have h4 := hinv.heap b
+  simp only [blocks, Slots.optList, hb, hwb, Option.toList, List.count_nil] at *
+  simp at h1 h2
+  split at h4 <;> omega
+
+theorem class_plain {s : AStore α} (hinv : Inv true s) {i : Nat} {v : AVar α} (hv : s.vars.find i = some v) :
+    v.arr.contents = (Spec.plain v.arr.contents).map some ∧
+    v.arr.data = (Spec.plain v.arr.contents).map .live := by
+  have hok := hinv.vars i v hv
+  obtain ⟨vs, hvs⟩ := full_exists _ (hok.allLive rfl)
+  have hd := hok.rep
+  rw [hvs] at hd ⊢
+  simp [hd]
+
+/-! ### explicit results of copy / move, and the shallow copy -/
+
+theorem step_copy {cls : Bool} {s : AStore α} (hinv : Inv cls s) {dst src : Nat} {v : AVar α}
+    (hfree : s.vars.isFree dst = true) (hfv : s.vars.find src = some v) :
+    step cls s (.copy dst src) = .ok (s.construct dst v.arr, .unit) := by
+  have hok := hinv.vars src v hfv
+  have h := Arr.copyOf_spec cls v.arr.contents hok.allLive
+  rw [← hok.arr_eq] at h
+  simp [step, fresh, hfree, need, hfv, h]
+
+theorem step_mctor (cls : Bool) (s : AStore α) {dst src : Nat} {v : AVar α}
+    (hfree : s.vars.isFree dst = true) (hfv : s.vars.find src = some v) :
+    step cls s (.mctor dst src) = .ok (⟨(s.vars.put src ⟨none, Arr.empty⟩).put dst v, s.heap⟩, .unit) := by
+  simp [step, fresh, hfree, need, hfv]
+
+theorem step_massign (cls : Bool) (s : AStore α) {dst src : Nat} {d v : AVar α} (hne : dst ≠ src)
+    (hfd : s.vars.find dst = some d) (hfv : s.vars.find src = some v) :
+    step cls s (.massign dst src) = .ok (⟨(s.vars.put dst v).put src d, s.heap⟩, .unit) := by
+  simp [step, need, hfd, hfv, hne]
+
+theorem release_eq_free (cls : Bool) (h : Heap) (v : AVar α) (hok : VarOK cls v) :
+    release cls h v = h.free v.blk := by
+  obtain ⟨dd, hd, hl⟩ := Arr.destroyAll_spec cls v.arr.contents hok.allLive
+  rw [← hok.arr_eq] at hd
+  cases cls with
+  | false => simp [release, hd]
+  | true => simp [release, hd, hl rfl]
+
+/-- the mutant: a copy constructor that shares the storage of its source -/
+def shallowCopy (s : AStore α) (dst : Nat) (v : AVar α) : AStore α := ⟨s.vars.put dst v, s.heap⟩
+
+theorem shallow_double_free {cls : Bool} {s : AStore α} (hinv : Inv cls s) {dst src : Nat} {v : AVar α}
+    {b : Nat} (hfree : s.vars.isFree dst = true) (hfv : s.vars.find src = some v) (hb : v.blk = some b) :
+    (step cls (shallowCopy s dst v) (.drop src) >>= fun r => step cls r.1 (.drop dst)) = .error .badFree := by
+  have hne : src ≠ dst := by
+    intro h; subst h; rw [Slots.isFree_find hfree] at hfv; cases hfv
+  have hok := hinv.vars src v hfv
+  have hdst : dst < s.vars.length := Slots.isFree_lt hfree
+  have hf1 : (s.vars.put dst v).find src = some v := by
+    rw [Slots.find_put_ne _ _ _ _ hne]; exact hfv
+  have hpos : 0 < s.heap.owned.count b := owned_of_find hinv hfv b hb
+  have hmem : b ∈ s.heap.owned := List.count_pos_iff.mp hpos
+  have hle : s.heap.owned.count b ≤ 1 := by
+    have := hinv.heap b; split at this <;> omega
+  have hnot : b ∉ s.heap.owned.erase b := by
+    intro hm
+    have := List.count_pos_iff.mpr hm
+    rw [List.count_erase_self] at this; omega
+  have hf2 : ((s.vars.put dst v).del src).find dst = some v := by
+    rw [Slots.find_del_ne _ _ _ (Ne.symm hne), Slots.find_put_self _ _ _ hdst]
+  have h1 : step cls (shallowCopy s dst v) (.drop src)
+      = .ok (⟨(s.vars.put dst v).del src, { s.heap with owned := s.heap.owned.erase b, freed := b :: s.heap.freed }⟩, .unit) := by
+    simp [shallowCopy, step, need, hf1, release_eq_free cls _ v hok, hb, Heap.free, hmem]
+  have h2 : step cls (⟨(s.vars.put dst v).del src, { s.heap with owned := s.heap.owned.erase b, freed := b :: s.heap.freed }⟩ : AStore α) (.drop dst)
+      = .error .badFree := by
+    simp [step, need, hf2, release_eq_free cls _ v hok, hb, Heap.free, hnot]
+    rfl
+  rw [h1]; exact h2
+
 end AStore
+
+/-! ### the specification leaves unnamed variables alone -/
+namespace Spec
+variable [Inhabited α]
+
+theorem step_frame (cls : Bool) (sp : St α) (op : AOp α) (j : Nat) (hj : j ∉ op.mentions) :
+    (step cls sp op).1.find j = sp.find j := by
+  cases op <;> simp [AOp.mentions] at hj <;> simp only [step] <;> (try split) <;> (try rfl) <;>
+    first
+      | (rw [Slots.find_put_ne _ _ _ _ hj]; done)
+      | (rw [Slots.find_del_ne _ _ _ hj]; done)
+      | (rw [Slots.find_put_ne _ _ _ _ hj.1, Slots.find_put_ne _ _ _ _ hj.2]; done)
+      | (rw [Slots.find_put_ne _ _ _ _ hj.2, Slots.find_put_ne _ _ _ _ hj.1]; done)
+      | (rw [Slots.find_put_ne _ _ _ _ hj.1]; done)
+
+theorem run_frame (cls : Bool) (ops : List (AOp α)) (j : Nat) :
+    ∀ sp : St α, (∀ op ∈ ops, j ∉ op.mentions) → (run cls sp ops).1.find j = sp.find j := by
+  induction ops with
+  | nil => intro sp _; rfl
+  | cons op ops ih =>
+    intro sp h
+    simp only [run]
+    rw [ih _ (fun o ho => h o (by simp [ho])), step_frame cls sp op j (h op (by simp))]
+
+end Spec
 end Tulz
